@@ -323,7 +323,7 @@ theorem held_ppRecv {M : Nat} {s s' : Sys} {lks : List (Option Nat)}
 
 theorem held_mono {s s' : Sys} {i : Int} (h : Held s i)
     (hq : ∀ x ∈ s.pq ++ s.dq ++ s.ret, x ∈ s'.pq ++ s'.dq ++ s'.ret)
-    (hw : ∀ w, (s'.wk w).inq = (s.wk w).inq ∧ (s'.wk w).bp = (s.wk w).bp) (hp : s'.pp = s.pp)
+    (hw : ∀ w, (s'.wk w).inq = (s.wk w).inq ∧ inside (s'.wk w).bp = inside (s.wk w).bp) (hp : s'.pp = s.pp)
     (hsucc : s'.succ = s.succ) (he : s'.errs = s.errs) : Held s' i := by
   rcases h with h | ⟨k, h⟩ | h | h | h
   · exact Or.inl (dataIds_mono hq h)
@@ -387,6 +387,12 @@ theorem held_step {M : Nat} {s s' : Sys} {c : Choice} (hp : ∀ w, PInv (s.wk w)
   | moveLeader b =>
     simp only [sysStep, Option.some.injEq] at hs; subst hs
     exact held_mono h (fun _ hf => hf) (fun _ => ⟨rfl, rfl⟩) rfl rfl rfl
+  | closeW w =>
+    obtain ⟨_, rfl⟩ := closeW_spec hs
+    refine held_mono h (fun _ hf => hf) (fun k => ?_) rfl rfl rfl
+    by_cases hk : k = w
+    · subst hk; simp [setW, closeBp, inside]
+    · simp [setW, hk]
 
 theorem bpActs_next (as : List Action) : ∀ (s : Sys) (off : Nat), (bpActs s off as).next = s.next := by
   induction as with
@@ -445,6 +451,7 @@ theorem sysStep_next {M : Nat} {s s' : Sys} {c : Choice} (hs : sysStep M s c = s
     · cases hs
     · exact bpRun_next hs
   | moveLeader b => simp only [sysStep, Option.some.injEq] at hs; subst hs; rfl
+  | closeW w => obtain ⟨_, rfl⟩ := closeW_spec hs; rfl
 
 /-- every submitted id is held -/
 def NoLoss (s : Sys) : Prop := ∀ i : Int, 0 ≤ i → i < (s.next : Int) → Held s i
